@@ -6,6 +6,7 @@ import (
 	"fmt"
 	"os"
 	"path/filepath"
+	"sort"
 	"strings"
 
 	"github.com/tsawler/tabula"
@@ -30,11 +31,13 @@ import (
 // The specified fragments are the shows in execution order, each decoded by the logical font.
 
 type mfFont struct {
-	Subtype string `json:"st"`  // TrueType | Type1 | Type0
-	Base    string `json:"bf"`  // /BaseFont
-	Enc     string `json:"enc"` // /Encoding name ("" = none written; Type0: Identity-H)
-	TU      string `json:"tu"`  // hex of the ToUnicode program ("" = none)
-	Direct  bool   `json:"dir"` // the dictionary is written directly in the resource dictionary
+	Subtype string `json:"st"`               // TrueType | Type1 | Type0
+	Base    string `json:"bf"`               // /BaseFont
+	Enc     string `json:"enc"`              // /Encoding name ("" = none written; Type0: Identity-H)
+	TU      string `json:"tu"`               // hex of the ToUnicode program ("" = none)
+	Direct  bool   `json:"dir"`              // the dictionary is written directly in the resource dictionary
+	Diffs   string `json:"diffs,omitempty"`  // the /Differences array text ("" = /Encoding is a name)
+	NoBase  bool   `json:"nobase,omitempty"` // with Diffs: the /Encoding dictionary has no /BaseEncoding (Type1: StandardEncoding)
 }
 
 type mfBind struct {
@@ -110,6 +113,12 @@ func (d *mfDoc) objects() (objs *pdfObjs, pageObj, contentObj int) {
 		if f.Subtype == "Type0" {
 			desc := o.add(fmt.Sprintf("<< /Type /Font /Subtype /CIDFontType2 /BaseFont /%s /CIDSystemInfo << /Registry (Adobe) /Ordering (Identity) /Supplement 0 >> /CIDToGIDMap /Identity /DW 1000 >>", f.Base))
 			fmt.Fprintf(&sb, " /Encoding /Identity-H /DescendantFonts [%d 0 R]", desc)
+		} else if f.Diffs != "" {
+			sb.WriteString(" /Encoding << /Type /Encoding")
+			if !f.NoBase {
+				sb.WriteString(" /BaseEncoding /" + f.Enc)
+			}
+			sb.WriteString(" /Differences " + f.Diffs + " >>")
 		} else if f.Enc != "" {
 			sb.WriteString(" /Encoding /" + f.Enc)
 		}
@@ -226,10 +235,20 @@ func (d *mfDoc) nameRebound() bool { // one resource name, different fonts in di
 	return false
 }
 
+// hasDifferences: some font's text comes from the /Differences of its /Encoding dictionary
+func (d *mfDoc) hasDifferences() bool {
+	for _, f := range d.Fonts {
+		if f.Diffs != "" && f.TU == "" {
+			return true
+		}
+	}
+	return false
+}
+
 func (d *mfDoc) describe() string {
 	var sb strings.Builder
 	for i, f := range d.Fonts {
-		fmt.Fprintf(&sb, "font#%d{%s /%s enc=%q tounicode=%v}", i, f.Subtype, f.Base, f.Enc, f.TU != "")
+		fmt.Fprintf(&sb, "font#%d{%s /%s enc=%q differences=%s tounicode=%v}", i, f.Subtype, f.Base, f.Enc, f.Diffs, f.TU != "")
 	}
 	for k, s := range d.Scopes {
 		if k == 0 {
@@ -297,6 +316,8 @@ func multiFontCase(c *hx.Ctx, dir string, idx int, d *mfDoc) {
 	// a form (resource scoping) / several dictionaries of one font program / neither
 	key := "C07/pdf-multifont-text"
 	switch {
+	case d.hasDifferences():
+		key = "C07/pdf-multifont-text-differences"
 	case d.nameRebound():
 		key = "C07/pdf-multifont-text-name-rebound"
 	case d.sharedProgram():
@@ -352,6 +373,9 @@ func (d *mfDoc) asExtDoc() *xDoc {
 			p, _ := hex.DecodeString(f.TU)
 			x.progs = append(x.progs, p)
 		}
+		if f.Diffs != "" {
+			x.diffTexts = append(x.diffTexts, f.Diffs)
+		}
 	}
 	return x
 }
@@ -387,8 +411,26 @@ func replayMultiFont(c *hx.Ctx, k map[string]interface{}) {
 // a logical font while generating: the dictionary plus what it specifies
 type mfGen struct {
 	mfFont
-	m  *lmap   // ToUnicode map (nil = none)
-	es []entry // its specified entries under the rendering policy
+	m    *lmap     // ToUnicode map (nil = none)
+	es   []entry   // its specified entries under the rendering policy
+	runs []diffRun // the /Differences of its /Encoding dictionary as authored (nil = none)
+}
+
+// withDifferences makes g a simple font whose /Encoding is a dictionary with /Differences
+// (g.Enc is its base encoding; written as /BaseEncoding unless it is what the subtype implies
+// without one and noBase is drawn).
+func (g *mfGen) withDifferences(r *hx.Rng) {
+	var table string
+	for _, e := range mfLatinEncodings {
+		if e.name == g.Enc {
+			table = e.table
+		}
+	}
+	g.runs = genDiffRuns(r, encCodes(table, false))
+	g.Diffs = renderDiffs(g.runs)
+	// ISO 32000-1 Table 114: without /BaseEncoding a nonsymbolic font that is not embedded
+	// starts from StandardEncoding (only generated for Type1, where nothing else is said)
+	g.NoBase = g.Subtype == "Type1" && g.Enc == "StandardEncoding" && r.Bool()
 }
 
 var mfLatinEncodings = []struct{ name, table string }{
@@ -453,11 +495,28 @@ func (g *mfGen) show(r *hx.Rng) (data []byte, want string) {
 		}
 	}
 	hi, all := encCodes(table, true), encCodes(table, false)
+	names := diffNames(g.runs)
+	var named []byte
+	inAll := map[byte]bool{}
+	for _, b := range all {
+		inAll[b] = true
+	}
+	for b, n := range names {
+		// a code named by a glyph the package does not know shows the base encoding's
+		// character: only shown where the base encoding defines one
+		if _, ok := glyphSpec(n); ok || inAll[b] {
+			named = append(named, b)
+		}
+	}
+	sort.Slice(named, func(i, j int) bool { return named[i] < named[j] })
 	var sb strings.Builder
 	for n := r.Range(1, 10); n > 0; n-- {
 		b := hx.Pick(r, all)
 		if r.Chance(2, 3) {
 			b = hx.Pick(r, hi)
+		}
+		if len(named) > 0 && r.Chance(2, 3) {
+			b = hx.Pick(r, named)
 		}
 		// a string that begins with FE FF / FF FE is, by the property's decode priority, UTF-16
 		// with a byte-order mark, not text in the named encoding: not generated here
@@ -465,6 +524,12 @@ func (g *mfGen) show(r *hx.Rng) (data []byte, want string) {
 			b = hx.Pick(r, all[:40])
 		}
 		data = append(data, b)
+		if n, ok := names[b]; ok {
+			if gr, known := glyphSpec(n); known {
+				sb.WriteRune(gr)
+				continue
+			}
+		}
 		sb.WriteRune(refTables[table][b][0])
 	}
 	return data, norm.NFC.String(sb.String())
@@ -518,6 +583,8 @@ func genMultiFont(r *hx.Rng) *mfDoc {
 			p.crlf, p.upper = r.Bool(), r.Bool()
 			g.TU = hex.EncodeToString(render(g.m, p))
 			g.es = g.m.entriesFor(p)
+		} else if r.Chance(1, 2) { // the /Differences of an /Encoding dictionary decide
+			g.withDifferences(r)
 		}
 		gens = append(gens, g)
 	}
@@ -605,6 +672,9 @@ func runMultiFont(c *hx.Ctx) {
 		d := genMultiFont(r)
 		multiFontCase(c, dir, i, d)
 		c.Case(fmt.Sprintf("multifont%d", i), true)
+		if d.hasDifferences() {
+			c.Count("multifont-with-differences")
+		}
 		switch {
 		case d.nameRebound():
 			c.Count("multifont-name-rebound")
